@@ -76,6 +76,18 @@ def written_from_other(f, info, field, other_id):
                     p = path(f, d)
                     if root_var_id(p) == other_id:
                         return True
+    # element-wise transfer through a standard range algorithm: std::move / std::copy / std::swap_ranges(other.f.begin(), other.f.end(), f.begin())
+    for n in f.calls():
+        if (f.callee_key(n) or '') not in ('std::move', 'std::copy', 'std::swap_ranges') or len(f.call_args(n)) != 3:
+            continue
+        ends = []
+        for x in f.call_args(n):
+            v = f.value_source(x)
+            if f.is_call(v) and (f.callee(v) or {}).get('name') in ('begin', 'end') and f.call_obj(v):
+                ends.append(((f.callee(v) or {}).get('name'), path(f, f.call_obj(v))))
+        if len(ends) == 3 and [e[0] for e in ends] == ['begin', 'end', 'begin'] and ends[0][1] == ends[1][1] and \
+                root_var_id(ends[0][1]) == other_id and last_field(ends[0][1]) == field and ends[2][1] == ('this', '.' + field):
+            return True
     return False
 
 
